@@ -25,7 +25,8 @@ namespace DC.Props.C11
 open DC.Model.Flags
 
 theorem explain_writes_nothing :
-    DC.Gen.Writes.astWrites = [] ∧ DC.Gen.Writes.globalWrites = [] ∧ DC.Gen.Writes.mapRanges = [] := by
+    DC.Gen.Writes.astWrites = [] ∧ DC.Gen.Writes.aliasAppends = [] ∧ DC.Gen.Writes.globalWrites = [] ∧
+    DC.Gen.Writes.mapRanges = [] := by
   decide
 
 /-- Earlier calls (any schedule of calls other than `i`) do not change what call `i` computes. -/
